@@ -1,6 +1,7 @@
 import Mochi.Model.Broker
 import Mochi.Lemmas.Gather
 import Mochi.Lemmas.BrokerDelivery
+import Mochi.Lemmas.BrokerPublishOp
 /-!
 # C03 — Every published message reaches exactly the entitled subscribers, once each
 
@@ -19,9 +20,20 @@ The statement is made with the model's merge of No Local (`EntitledF03`); C03 as
 `Subscription.Merge` ORs No Local, so a client holding a No Local and a plain subscription that both match its own
 publish gets nothing.  Outside that situation both notions agree (`C03_delivery_exact_reach_spec_partial`), and
 soundness needs no proviso (`C03_delivery_sound_reach_partial`).
+* **from the op to the recipients** (last part of this file; lemmas in `Mochi/Lemmas/BrokerPublishOp.lean`): the op a
+  client performs — `step s (.recv conn (.publish 0 …))`, i.e. `recvOn` → `receivePacket` → `publishValidate` →
+  `processPublish` (topic validity, receive quota, write ACL, in-flight bookkeeping, hook mode, retain) →
+  `publishToSubscribers` → `nextImmediate` → barrier PINGREQ — and `step s (.inlinePublish …)`: for an ACCEPTED
+  publish (`AcceptedQ0` / `AcceptedInline`, decidable hypotheses on the state before the op) the whole op IS that one
+  call (`step_recv_publish_accepted`, `step_inlinePublish_accepted`), so it writes a PUBLISH to exactly the entitled
+  connections, entitlement read in the state before the op (`recv_publish_delivery_exact`,
+  `inline_publish_delivery_exact`, `C03_publish_op_exact_reach_partial`, `C03_publish_op_exact_seq_partial`); without
+  the hypothesis that the publisher holds no deferred message the op writes, after these deliveries, at most two
+  releases of the publisher's own deferred messages to the publisher (`recv_publish_delivery_exact_releases`).
 Excluded (partial): shared subscriptions matching the topic, deliveries of QoS > 0 (in-flight limit, packet ids, send
-quota), the topic bytes under topic aliases, schedule ops (concurrent handlers), and the path from an inbound PUBLISH
-packet to `publishToSubscribers` (the theorems are about `publishToSubscribers s pk` in a reachable state `s`).
+quota), the topic bytes under topic aliases, schedule ops (concurrent handlers); for the op theorems also: an
+inbound topic alias, a publish-hook mode for the topic, an in-flight record under the packet id, a publisher that
+itself holds a deferred message (the op would then also release one to the publisher: `nextImmediate`).
 End to end the correspondence oracle checks the same on every run.
 -/
 namespace Mochi.Broker
@@ -378,6 +390,230 @@ example : MixedNoLocal (run (init {}) f03History) { topic := [97, 47, 98], paylo
   ⟨{ filter := [97, 47, 35], noLocal := true }, { filter := [97, 47, 98] }, ⟨by decide, by decide⟩, rfl,
     ⟨by decide, by decide⟩, rfl⟩
 
+/-! ## From the OPERATION to the recipients
+
+The theorems above speak about the call `publishToSubscribers s pk`.  The ones below speak about the op a client
+performs: `step s (.recv conn (.publish …))` (`recvOn` → `receivePacket` → `publishValidate` → `processPublish`
+→ … → `publishToSubscribers`, then `nextImmediate` and the barrier PINGREQ) and `step s (.inlinePublish …)`.
+Lemmas: `Mochi/Lemmas/BrokerPublishOp.lean` (`processPublish_accepted_shape`, `step_recv_publish_accepted`). -/
+
+/-- **Item 2 — from the op to the recipients.**  `s`: any state satisfying the three all-history invariants
+    (`SyncInv`, `WF`, `ConnMap`: every `ReachSeq` state does).  The op: client object `i`, on connection `conn`, sends
+    `PUBLISH(QoS 0, dup, retain, topic, payload, message expiry me)`, no topic alias, and the publish is accepted
+    (`AcceptedQ0`: connection alive, topic valid, receive quota, write permission, no in-flight record under id 0, no
+    publish-hook mode for the topic, the publisher has no deferred message).  No shared subscription of the index
+    matches the topic.  Then, with `pk = inboundMsg …` (origin = the publisher's client id) and `out` = everything
+    the op writes:
+
+    1. connection `n` is written a PUBLISH by the op **iff** `EntitledF03 s pk n` — entitlement in the state BEFORE
+       the op (retaining does not change it);
+    2. … iff the registered session lists a matching plain filter (`EntitledSession`);
+    3. connection `n` is written at most one PUBLISH;
+    4. every output of the op is an inline delivery of `(topic, payload)` or a copy of the message (PUBLISH, type 3,
+       the payload, QoS 0, the publisher's id as origin, dup 0, packet id 0) — nothing else: no ack, no release of a
+       deferred message, no PINGRESP in the projection, no `closed`. -/
+theorem recv_publish_delivery_exact (s : Server) (hs : SyncInv s) (hw : WF s) (hcm : ConnMap s)
+    (conn i : Nat) (dup retain : Bool) (topic payload : Str) (me : Nat)
+    (hc : assocGet s.connOf conn = some i) (h : AcceptedQ0 s i topic)
+    (hsh : (subscribers s.topics topic).shared = []) (n : Nat) :
+    ((∃ ver m mes, Out.wrote n (.publish ver m mes) ∈
+        (step s (.recv conn (.publish 0 dup retain 0 topic payload me none))).2) ↔
+      EntitledF03 s (inboundMsg s i 0 dup retain 0 topic payload me) n) ∧
+    (EntitledF03 s (inboundMsg s i 0 dup retain 0 topic payload me) n ↔
+      EntitledSession s (inboundMsg s i 0 dup retain 0 topic payload me) n) ∧
+    ((step s (.recv conn (.publish 0 dup retain 0 topic payload me none))).2.filterMap pubConn).count n ≤ 1 ∧
+    ∀ x ∈ (step s (.recv conn (.publish 0 dup retain 0 topic payload me none))).2,
+      (∃ id, x = Out.inline id topic payload) ∨ IsCopy (inboundMsg s i 0 dup retain 0 topic payload me) x := by
+  have hnh := no_hash_level topic h.valid
+  have hsh' := (retainedState_shared s (inboundMsg s i 0 dup retain 0 topic payload me) hs.idx topic h.nonempty hnh).mpr hsh
+  obtain ⟨is, iw, ic⟩ := retainedState_inv (inboundMsg s i 0 dup retain 0 topic payload me) hs hw hcm
+  rw [step_recv_publish_accepted s conn i dup retain topic payload me hc h hsh']
+  obtain ⟨h1, h2, h3, h4⟩ := C03_delivery_exact_inv_partial _ is iw ic (inboundMsg s i 0 dup retain 0 topic payload me)
+    rfl rfl (Or.inl rfl) h.nonempty hnh hsh' n
+  rw [entitledF03_retainedState] at h1 h2
+  rw [entitledSession_retainedState] at h2
+  exact ⟨h1, h2, h3, h4⟩
+
+/-- **Item 3 — the inline API.**  `step s (.inlinePublish topic payload retain qos)` (`Server.Publish`): the inline
+    client (object 0) passes the topic-validity and write-ACL gates unexamined; `AcceptedInline` asks for what still
+    applies (no wildcard, non-empty topic, its receive quota, no publish-hook mode, no deferred message of its own).
+    The message must be QoS 0 after shaping: `qos = 0`, or every matching plain subscription of the index is QoS 0.
+    Conclusions as in `recv_publish_delivery_exact`, for `inlineMsg …` (origin = the inline client's id). -/
+theorem inline_publish_delivery_exact (s : Server) (hs : SyncInv s) (hw : WF s) (hcm : ConnMap s)
+    (topic payload : Str) (retain : Bool) (qos : Nat) (h : AcceptedInline s topic)
+    (hq : qos = 0 ∨ ∀ c sub, MatchingSub s.topics topic c sub → sub.qos = 0)
+    (hsh : (subscribers s.topics topic).shared = []) (n : Nat) :
+    ((∃ ver m mes, Out.wrote n (.publish ver m mes) ∈ (step s (.inlinePublish topic payload retain qos)).2) ↔
+      EntitledF03 s (inlineMsg s topic payload retain qos) n) ∧
+    (EntitledF03 s (inlineMsg s topic payload retain qos) n ↔
+      EntitledSession s (inlineMsg s topic payload retain qos) n) ∧
+    ((step s (.inlinePublish topic payload retain qos)).2.filterMap pubConn).count n ≤ 1 ∧
+    ∀ x ∈ (step s (.inlinePublish topic payload retain qos)).2,
+      (∃ id, x = Out.inline id topic payload) ∨ IsCopy (inlineMsg s topic payload retain qos) x := by
+  have hnh := no_hash_level_of_noWild topic h.noWild
+  have hsh' := (retainedState_shared s (inlineMsg s topic payload retain qos) hs.idx topic h.nonempty hnh).mpr hsh
+  obtain ⟨is, iw, ic⟩ := retainedState_inv (inlineMsg s topic payload retain qos) hs hw hcm
+  have hq' : (inlineMsg s topic payload retain qos).qos = 0 ∨
+      ∀ c sub, MatchingSub (retainedState s (inlineMsg s topic payload retain qos)).topics topic c sub → sub.qos = 0 :=
+    hq.imp (inlineMsg_fields s topic payload retain qos).2.2.2.2.2
+      (fun g c sub hm => g c sub ((matchingSub_congr (retainedState_quiet s _).plain topic c sub).mp hm))
+  rw [step_inlinePublish_accepted s topic payload retain qos h
+    (hq'.imp id (merged_qos_zero _ is.idx topic h.nonempty hnh (C03_one_entry_per_client _ topic))) hsh']
+  obtain ⟨h1, h2, h3, h4⟩ := C03_delivery_exact_inv_partial _ is iw ic (inlineMsg s topic payload retain qos)
+    rfl rfl hq' h.nonempty hnh hsh' n
+  rw [entitledF03_retainedState] at h1 h2
+  rw [entitledSession_retainedState] at h2
+  exact ⟨h1, h2, h3, h4⟩
+
+/-- what items 2/3 conclude about the outputs `out` of one publish op routing the message `pk` in state `s`
+    (entitlement read in the state BEFORE the op): a PUBLISH is written to connection `n` iff `n` is entitled; that is
+    also readable off the session; at most one PUBLISH per connection; every output is an inline delivery or a copy of
+    the message -/
+def DeliversExactly (s : Server) (pk : Msg) (out : List Out) (n : Nat) : Prop :=
+  ((∃ ver m mes, Out.wrote n (.publish ver m mes) ∈ out) ↔ EntitledF03 s pk n) ∧
+  (EntitledF03 s pk n ↔ EntitledSession s pk n) ∧
+  (out.filterMap pubConn).count n ≤ 1 ∧
+  ∀ x ∈ out, (∃ id, x = Out.inline id pk.topic pk.payload) ∨ IsCopy pk x
+
+/-- **Item 2 without the hypothesis on deferred messages** (`PublishGates` instead of `AcceptedQ0`): the outputs of
+    the op are `o ++ r` where `o` is delivered exactly as in item 2 and `r` — at most two outputs — are releases of
+    deferred messages of the PUBLISHER: possible only if the publisher has send quota and holds, before the op, an
+    in-flight message `m` with `expiry < 0`; the output is `writeMsg` of `m` on the publisher's own connection. -/
+theorem recv_publish_delivery_exact_releases (s : Server) (hs : SyncInv s) (hw : WF s) (hcm : ConnMap s)
+    (conn i : Nat) (dup retain : Bool) (topic payload : Str) (me : Nat)
+    (hc : assocGet s.connOf conn = some i) (h : PublishGates s i topic)
+    (hsh : (subscribers s.topics topic).shared = []) :
+    ∃ o r, (step s (.recv conn (.publish 0 dup retain 0 topic payload me none))).2 = o ++ r ∧
+      (∀ n, DeliversExactly s (inboundMsg s i 0 dup retain 0 topic payload me) o n) ∧ r.length ≤ 2 ∧
+      ∀ x ∈ r, (getObj s i).sendQuota > 0 ∧ ∃ m ∈ (getObj s i).inflight, m.expiry < 0 ∧ x ∈ writeMsg s i m := by
+  have hnh := no_hash_level topic h.valid
+  have hsh' := (retainedState_shared s (inboundMsg s i 0 dup retain 0 topic payload me) hs.idx topic h.nonempty hnh).mpr hsh
+  obtain ⟨is, iw, ic⟩ := retainedState_inv (inboundMsg s i 0 dup retain 0 topic payload me) hs hw hcm
+  obtain ⟨r, h1, h2, h3⟩ := step_recv_publish_releases s conn i dup retain topic payload me hc h hsh'
+  refine ⟨_, r, h1, fun n => ?_, h2, h3⟩
+  obtain ⟨g1, g2, g3, g4⟩ := C03_delivery_exact_inv_partial _ is iw ic (inboundMsg s i 0 dup retain 0 topic payload me)
+    rfl rfl (Or.inl rfl) h.nonempty hnh hsh' n
+  rw [entitledF03_retainedState] at g1 g2
+  rw [entitledSession_retainedState] at g2
+  exact ⟨g1, g2, g3, g4⟩
+
+/-- **Item 4, on reachable states.**  In every state `s` reached from `init caps` by ops that are not schedule ops,
+    interleaved with configuration changes (`ReachSeq`): the NEXT op, if it is an accepted QoS 0 PUBLISH of a network
+    client (`AcceptedQ0`) or an accepted inline publish that is QoS 0 after shaping (`AcceptedInline`), on a topic that
+    no shared subscription matches, writes a PUBLISH to exactly the entitled connections, once each, and nothing
+    else but inline deliveries. -/
+theorem C03_publish_op_exact_reach_partial (caps : Caps) (s : Server) (hr : ReachSeq caps s) :
+    (∀ (conn i : Nat) (dup retain : Bool) (topic payload : Str) (me : Nat),
+      assocGet s.connOf conn = some i → AcceptedQ0 s i topic → (subscribers s.topics topic).shared = [] →
+      ∀ n, DeliversExactly s (inboundMsg s i 0 dup retain 0 topic payload me)
+        (step s (.recv conn (.publish 0 dup retain 0 topic payload me none))).2 n) ∧
+    (∀ (topic payload : Str) (retain : Bool) (qos : Nat),
+      AcceptedInline s topic → (qos = 0 ∨ ∀ c sub, MatchingSub s.topics topic c sub → sub.qos = 0) →
+      (subscribers s.topics topic).shared = [] →
+      ∀ n, DeliversExactly s (inlineMsg s topic payload retain qos)
+        (step s (.inlinePublish topic payload retain qos)).2 n) :=
+  ⟨fun conn i dup retain topic payload me hc h hsh n =>
+     recv_publish_delivery_exact s hr.inv.1 hr.inv.2.1 hr.inv.2.2.1 conn i dup retain topic payload me hc h hsh n,
+   fun topic payload retain qos h hq hsh n =>
+     inline_publish_delivery_exact s hr.inv.1 hr.inv.2.1 hr.inv.2.2.1 topic payload retain qos h hq hsh n⟩
+
+/-- **Item 4 — `C03_publish_op_exact_seq`, restricted (hence `_partial`).**  For every history `ops` from
+    `init caps` without schedule ops (connection numbers fresh), the statement of items 2 and 3 for the op applied
+    NEXT, in the state `run (init caps) ops`.  Restrictions: QoS 0 after shaping; no topic alias on the inbound
+    packet; no shared subscription matching the topic; the publish-hook mode of the topic is none; the publisher
+    holds no deferred message of its own; no schedule ops in the history; entitlement with the No Local merge of F03. -/
+theorem C03_publish_op_exact_seq_partial (caps : Caps) (ops : List Op) (hseq : SeqOps ops)
+    (hf : OpsFresh (init caps) ops) :
+    (∀ (conn i : Nat) (dup retain : Bool) (topic payload : Str) (me : Nat),
+      assocGet (run (init caps) ops).connOf conn = some i → AcceptedQ0 (run (init caps) ops) i topic →
+      (subscribers (run (init caps) ops).topics topic).shared = [] →
+      ∀ n, DeliversExactly (run (init caps) ops) (inboundMsg (run (init caps) ops) i 0 dup retain 0 topic payload me)
+        (step (run (init caps) ops) (.recv conn (.publish 0 dup retain 0 topic payload me none))).2 n) ∧
+    (∀ (topic payload : Str) (retain : Bool) (qos : Nat),
+      AcceptedInline (run (init caps) ops) topic →
+      (qos = 0 ∨ ∀ c sub, MatchingSub (run (init caps) ops).topics topic c sub → sub.qos = 0) →
+      (subscribers (run (init caps) ops).topics topic).shared = [] →
+      ∀ n, DeliversExactly (run (init caps) ops) (inlineMsg (run (init caps) ops) topic payload retain qos)
+        (step (run (init caps) ops) (.inlinePublish topic payload retain qos)).2 n) :=
+  C03_publish_op_exact_reach_partial caps _ (ReachSeq.init.run ops hseq hf)
+
+/-! ### Non-vacuity of the op theorems: `p` (connection 3, object 3) publishes `a/b` as the NEXT op of `c03History` -/
+
+/-- the op: PUBLISH QoS 0 `a/b`, payload `01`, on connection 3 -/
+def c03Op (retain : Bool) : Op := .recv 3 (.publish 0 false retain 0 [97, 47, 98] [1] 0 none)
+
+/-- connection 3 is client object 3, and the publish is accepted -/
+theorem c03_accepted : assocGet c03State.connOf 3 = some 3 ∧ AcceptedQ0 c03State 3 [97, 47, 98] :=
+  ⟨by decide, ⟨by decide, by decide, by decide, by decide, by decide, by decide, by decide, by decide, by decide⟩,
+    by decide⟩
+
+/-- the message the op routes is `c03Msg` up to the stamps `processPublish` puts on it (creation time, MQTT version,
+    expiry time from the broker's maximum message expiry) -/
+example : inboundMsg c03State 3 0 false false 0 [97, 47, 98] [1] 0 =
+    { c03Msg with created := NOW, ver := 5, expiry := NOW + 86400 } := by decide
+
+/-- the op writes a PUBLISH to connections 2 and 1, once each, and delivers to the inline subscriber: three
+    outputs, nothing else (no PINGRESP of the barrier in the projection, no release) — with and without retain; with
+    retain the message is stored -/
+example : (step c03State (c03Op false)).2.filterMap pubConn = [2, 1] ∧ (step c03State (c03Op false)).2.length = 3 ∧
+    Out.inline 7 [97, 47, 98] [1] ∈ (step c03State (c03Op false)).2 ∧
+    (step c03State (c03Op true)).2.filterMap pubConn = [2, 1] ∧ (step c03State (c03Op true)).2.length = 3 ∧
+    (step c03State (c03Op false)).1.rmsgs.map (·.1) = [] ∧
+    (step c03State (c03Op true)).1.rmsgs.map (·.1) = [[97, 47, 98]] := by decide
+
+/-- the op theorem, instantiated: `x`, `y` entitled; the publisher (No Local), `z` (read denial), `w` (closed) not -/
+example : ∀ retain, EntitledF03 c03State (inboundMsg c03State 3 0 false retain 0 [97, 47, 98] [1] 0) 1 ∧
+    EntitledF03 c03State (inboundMsg c03State 3 0 false retain 0 [97, 47, 98] [1] 0) 2 ∧
+    ¬ EntitledF03 c03State (inboundMsg c03State 3 0 false retain 0 [97, 47, 98] [1] 0) 3 ∧
+    ¬ EntitledF03 c03State (inboundMsg c03State 3 0 false retain 0 [97, 47, 98] [1] 0) 4 ∧
+    ¬ EntitledF03 c03State (inboundMsg c03State 3 0 false retain 0 [97, 47, 98] [1] 0) 5 := by
+  intro retain
+  have h := fun n => ((C03_publish_op_exact_reach_partial {} c03State c03State_reach).1 3 3 false retain [97, 47, 98]
+    [1] 0 c03_accepted.1 c03_accepted.2 (by decide) n).1
+  have ho : (step c03State (.recv 3 (.publish 0 false retain 0 [97, 47, 98] [1] 0 none))).2.filterMap pubConn = [2, 1] := by
+    cases retain <;> decide
+  refine ⟨(h 1).mp (mem_pubConns.mp (by rw [ho]; decide)), (h 2).mp (mem_pubConns.mp (by rw [ho]; decide)), ?_, ?_, ?_⟩ <;>
+  · intro e
+    have := mem_pubConns.mpr ((h _).mpr e)
+    rw [ho] at this
+    revert this
+    decide
+
+/-- the hypothesis "every matching plain subscription is QoS 0" can be checked on the (computable) subscriber map -/
+theorem matching_qos_zero_of_merged (x : Index) (hx : IdxOK x) (topic : Str) (hne : topic ≠ [])
+    (hnh : ∀ t ∈ splitLevels topic, t ≠ [hash]) (h : ∀ cs ∈ (subscribers x topic).subs, cs.2.qos = 0) :
+    ∀ c sub, MatchingSub x topic c sub → sub.qos = 0 := by
+  intro c sub hm
+  by_cases hz : sub.qos = 0
+  · exact hz
+  · obtain ⟨sub', hg, hq⟩ := (hasSub_subscribers_idx mergeOr_qosPos x hx topic hne hnh c).mpr
+      ⟨sub, hm, Nat.pos_of_ne_zero hz⟩
+    have h0 : sub'.qos = 0 := h _ (assocGet_mem _ _ _ hg)
+    have hq' : sub'.qos > 0 := hq
+    omega
+
+/-- the inline publish as the next op: accepted, same recipients (the inline client is nobody's No Local origin) -/
+theorem c03_inline_accepted : AcceptedInline c03State [97, 47, 98] :=
+  ⟨by decide, by decide, by decide, by decide, by decide, by decide⟩
+
+/-- QoS 0 and QoS 1 (every matching subscription is QoS 0): connections 2, 3 (`p` itself: the origin is the inline
+    client, No Local does not apply) and 1 -/
+example : (step c03State (.inlinePublish [97, 47, 98] [1] false 0)).2.filterMap pubConn = [2, 3, 1] ∧
+    (step c03State (.inlinePublish [97, 47, 98] [1] false 1)).2.filterMap pubConn = [2, 3, 1] ∧
+    EntitledF03 c03State (inlineMsg c03State [97, 47, 98] [1] false 1) 3 ∧
+    ¬ EntitledF03 c03State (inlineMsg c03State [97, 47, 98] [1] false 1) 4 := by
+  have hq : ∀ c sub, MatchingSub c03State.topics [97, 47, 98] c sub → sub.qos = 0 :=
+    matching_qos_zero_of_merged _ c03State_reach.inv.1.idx _ (by decide) (by decide) (by decide)
+  have h := fun n => ((C03_publish_op_exact_reach_partial {} c03State c03State_reach).2 [97, 47, 98] [1] false 1
+    c03_inline_accepted (Or.inr hq) (by decide) n).1
+  have ho : (step c03State (.inlinePublish [97, 47, 98] [1] false 1)).2.filterMap pubConn = [2, 3, 1] := by decide
+  refine ⟨by decide, ho, (h 3).mp (mem_pubConns.mp (by rw [ho]; decide)), ?_⟩
+  intro e
+  have := mem_pubConns.mpr ((h _).mpr e)
+  rw [ho] at this
+  revert this
+  decide
+
 end Mochi.Broker
 
 #print axioms Mochi.Broker.publishToSubscribers_writes_exact
@@ -390,3 +626,9 @@ end Mochi.Broker
 #print axioms Mochi.Broker.C03_delivery_sound_reach_partial
 #print axioms Mochi.Broker.C03_delivery_full_false_F03
 #print axioms Mochi.Broker.c03State_reach
+#print axioms Mochi.Broker.recv_publish_delivery_exact
+#print axioms Mochi.Broker.inline_publish_delivery_exact
+#print axioms Mochi.Broker.C03_publish_op_exact_reach_partial
+#print axioms Mochi.Broker.C03_publish_op_exact_seq_partial
+#print axioms Mochi.Broker.c03_accepted
+#print axioms Mochi.Broker.recv_publish_delivery_exact_releases
